@@ -311,4 +311,3 @@ func gates(a *hx.Args, rng *mrand.Rand, res *hx.Result) {
 		}
 	}
 }
-
